@@ -252,7 +252,7 @@ func c19Alphabet() []fstep {
 		{F: "R", K: "remove"},
 		{F: "R", K: "remove", Ms: []string{"GET"}},
 		{F: "R", K: "remove", Ms: []string{"HEAD", "OPTIONS"}}, // names that cannot be removed by hand: nothing happens
-		{F: "Pp", K: "remove", P: "/y", Ms: []string{"OPTIONS"}},
+		{F: "Pp", K: "remove", P: "/y", Ms: []string{"OPTIONS", "get", "Post"}}, // method names are case-sensitive: "get" names nothing, through a facade as through the router
 		{F: "Qs", K: "get", P: "/z"},
 		{F: "Qs", K: "url", P: "/z"},
 		{F: "Pp", K: "clean"},
